@@ -16,21 +16,23 @@ CHECKS = {
             "constructor input forms, all 256 byte values of text/binary, every float exponent x boundary mantissas, all list trees up to the "
             "stated depth/branching) is encoded by the real variables API and compared byte for byte with an independent E5 encoder; the bytes "
             "are decoded into fresh and reused objects and at an offset, and position and value compared. Exhaustive over the stated family, "
-            "small-scope outside it. Thread-pair independence: every ordered pair of a small operation alphabet runs on two threads with separate objects under every schedule with <= 1 (2) delays where every source line of secsgem.secs.* is a scheduling point; each thread must get the result it gets alone.",
+            "small-scope outside it. Every character U+0000..U+02FF (+ katakana, yen, overline) as a one-character str for A and J must round "
+            "trip when accepted; a refused set()/decode() must leave the object unchanged. Thread-pair independence: every ordered pair of a small operation alphabet runs on two threads with separate objects under every schedule with <= 1 (2) delays where every source line of secsgem.secs.* is a scheduling point; each thread must get the result it gets alone.",
             "Trusts /verif/ref/e5.py (written from the E5 format, no secsgem import) and Python's struct for IEEE-754; values outside the "
             "boundary families are covered only by the small-scope hypothesis.", "DESIGN.md 3/C01"),
     "C02": ("exploration", "enum", "bounded-exhaustive enumeration of reference-encoded (canonical and non-canonical) E5 items",
             "Byte strings are produced by the independent reference encoder, including every assignment of 1/2/3 length bytes to every node "
             "of every tree of the family, every finite float exponent x boundary mantissas, and every catalogue data item x every format "
             "code it allows; the real decoder's value, consumed length and canonical re-encoding are compared with the reference on each, into fresh objects and "
-            "into objects that already decoded something else (typed, ANYVALUE, Array). Thread-pair independence: every ordered pair of a small operation alphabet runs on two threads with separate objects under every schedule with <= 1 (2) delays where every source line of secsgem.secs.* is a scheduling point; each thread must get the result it gets alone.",
+            "into objects that already decoded something else (typed, ANYVALUE, Array); all 256 byte values of a BOOLEAN item; an empty item of "
+            "every type followed by another item. Thread-pair independence: every ordered pair of a small operation alphabet runs on two threads with separate objects under every schedule with <= 1 (2) delays where every source line of secsgem.secs.* is a scheduling point; each thread must get the result it gets alone.",
             "Trusts ref/e5.py; byte strings the reference decoder rejects are out of scope; JIS-8 only through the JIS8 class.",
             "DESIGN.md 3/C02"),
     "C14": ("exploration", "enum", "bounded-exhaustive input enumeration of the Item API against the reference codec and the variables API",
             "Every value of the C01 families is pushed through Item(value) in every constructor input form (value held, bytes equal to the "
             "reference and to the variables API), Item.decode over every assignment of length bytes (canonical re-encode, class, value), and "
             "Item.from_value over every integer at +-1 around every power of two up to 2^65 (after converting equal-valued floats/bools first) and "
-            "structured python values (narrowest type). Thread-pair independence: every ordered pair of a small operation alphabet runs on two threads with separate objects under every schedule with <= 1 (2) delays where every source line of secsgem.secs.* is a scheduling point; each thread must get the result it gets alone.",
+            "structured python values (narrowest type); the caller's list is changed after an ItemL was built from it. Thread-pair independence: every ordered pair of a small operation alphabet runs on two threads with separate objects under every schedule with <= 1 (2) delays where every source line of secsgem.secs.* is a scheduling point; each thread must get the result it gets alone.",
             "Trusts ref/e5.py; floats excluded from the from_value type oracle (statement lists bool/int/str/bytes/list).", "DESIGN.md 3/C14"),
     "C05": ("model_checking", "vrt+hbfs", "explicit-state history BFS on the real HsmsProtocol + delay-bounded schedule exploration of the accept race",
             "Every history over a 22-event alphabet (connect, peer close, enable/disable, all control messages with matching/alien system "
@@ -58,7 +60,7 @@ CHECKS = {
             "completed S1F13/S1F14 exchange with COMMACK 0 on the current link (and a valid exchange does establish), link loss/disable leave "
             "it, no callback runs while not communicating, from every reached state a retry S1F13 appears within T3 + delay (bounded "
             "liveness probe in virtual time), and no retry is sent before previous-attempt-failure + delay; run in two timer configurations "
-            "(T3 > delay, and 2 x T3 < delay so that timers of abandoned attempts can still be pending). The accepting S1F14 is raced against "
+            "(T3 > delay, and 2 x T3 < delay so that timers of abandoned attempts can still be pending; a third one starts the transaction counter at 2^32 - 1). The accepting S1F14 is raced against "
             "link loss and against T3 expiry under every schedule with <= 2 (3) delays at line granularity of the state-machine engine.",
             "Default schedule per event; virtual timers fire only through the explicit tick event; a stale S1F14 of the same link may or may not establish.",
             "DESIGN.md 3/C07"),
@@ -122,7 +124,7 @@ CHECKS = {
             "a message carrying only S/F and decoded through StreamsFunctions.decode (same class, equal value, same bytes). The YAML "
             "catalogue vs class attributes, F/F+1 pairing, reply flags, mirrored directions and the lookup of all 128x256 numbers are enumerated completely; the flags of a constructed function object "
             "(the ones the protocol layers read) are compared with the declaration; for every function, update() of one container must leave older "
-            "and newer default containers on the catalogue class, and a look-up made before update() must not hide it afterwards. Thread-pair independence: every ordered pair of a small operation alphabet runs on two threads with separate objects under every schedule with <= 1 (2) delays where every source line of the catalogue, SFDL reader and container modules is a scheduling point; each thread must get the result it gets alone.",
+            "and newer default containers on the catalogue class, and a look-up made before update() must not hide it afterwards; a value set into a used function object must encode like a fresh one. Thread-pair independence: every ordered pair of a small operation alphabet runs on two threads with separate objects under every schedule with <= 1 (2) delays where every source line of the catalogue, SFDL reader and container modules is a scheduling point; each thread must get the result it gets alone.",
             "Values beyond one/two deviations from the default are covered by the small-scope hypothesis; over-long values are observed, not demanded to be rejected.",
             "DESIGN.md 3/C03"),
     "C19": ("exploration", "enum", "bounded-exhaustive enumeration of definition trees against an independent reader of the documented rules",
@@ -141,14 +143,16 @@ CHECKS = {
             "A real ByteQueue alone (one producer, one consumer framing like the HSMS and SECS-I receivers) is explored under every schedule with "
             "<= 2 (3) delays where every bytecode instruction of ByteQueue is a scheduling point. Outbound: for packet sizes 5/16/64 every frame "
             "size up to 3 packets + 2 and, for the shipped 1 MiB, sizes around 1 (2, 3) MiB, the bytes given to send_data equal the reference frame. "
-            "Streams are also fed after an earlier connection of the same object ended inside a frame (8 offsets).",
+            "Streams are also fed after an earlier connection of the same object ended inside a frame (8 offsets), to two protocol objects side by "
+            "side, and while the connection is still being accepted (<= K delays).",
             "LoopConnection delivers segments from its receiver thread like TcpConnection (<=1024-byte reads); stepwise mode uses the default schedule.",
             "DESIGN.md 3/C04"),
     "C18": ("model_checking", "vrt+explore", "explicit-state search over generated machine definitions x transition sequences + delay-bounded schedule exploration of concurrent triggers",
             "Programs: every machine with <= 3 (4) states in every forest of depth <= 2, 1-3 transitions with every source set/destination among "
             "leaves and optionally one enter handler requesting a transition, plus the three shipped machines (control in all 8 configurations): BFS "
             "over transition-name sequences to closure against the reference semantics (refused => raises, nothing changes; destination; active "
-            "set = current + ancestors; called once; enter/leave balanced). Concurrency: for every reachable state of the shipped machines and every "
+            "set = current + ancestors; called once; enter/leave balanced). The shipped machines are driven through their public wrapper methods and every plain attribute of the machine object counts as state. "
+            "Concurrency: for every reachable state of the shipped machines and every "
             "pair of transitions allowed there, two threads request them under every schedule with <= K delays (lines of state_machine.py); the "
             "outcome must equal one of the two sequential orders.",
             "Internal vs external transition semantics both accepted; handler exceptions other than the engine's own are not in scope.", "DESIGN.md 3/C18"),
